@@ -466,6 +466,8 @@ func c24Check(vc *vcollector, ks *keyset, st *c24Stats, in c24Input, w *c23Worke
 		class := c24Leniency(fork.nodes, src, fork.base)
 		if class != "" {
 			st.lenient[class]++
+		} else if c24EllipsisArrayOutsideLiteral(fork.nodes) {
+			vc.add(idx, "C24|invalid|fork accepts|array type [...]T outside a composite literal", mk("go/parser reports "+std.err.Error()+"; the forked parser reports no error"))
 		} else {
 			vc.add(idx, "C24|invalid|fork accepts|"+c24ErrClass(std.err), mk("go/parser reports "+std.err.Error()+"; the forked parser reports no error"))
 		}
@@ -638,6 +640,10 @@ func c24Run(c *core.Ctx) {
 	})
 	c.Set("edit_seed_files", len(seeds))
 	c.Set("edit_inputs", len(jobs))
+	base += int64(len(jobs))
+
+	// (4) the type grammar in every context (c24_types.go)
+	c.Set("type_family_inputs", c24TypeFamily(c, vc, get, base))
 
 	tot := newC24Stats()
 	for _, s := range stats {
